@@ -440,8 +440,14 @@ fn unique_metric(idx: usize, len: usize) -> Vec<u8> {
     let head = format!("m{}.", idx);
     let mut v = head.into_bytes();
     v.truncate(len);
+    // every third metric is filled with 2-byte characters: its byte length differs from its char count
+    let multibyte = idx % 3 == 0;
     while v.len() < len {
-        v.push(b'a' + ((idx + v.len()) % 26) as u8);
+        if multibyte && len - v.len() >= 2 {
+            v.extend_from_slice("é".as_bytes());
+        } else {
+            v.push(b'a' + ((idx + v.len()) % 26) as u8);
+        }
     }
     v
 }
